@@ -46,7 +46,7 @@ noncomputable def emb (g a : UPoly Nat) : AdjoinRoot (toPoly (PL h32) g) :=
 variable {h32} {n : Nat} {g : List Nat}
 
 theorem Modulus.isQuot (M : Modulus h32 n g) : IsQuot (Ext.ring p g) (PL h32) g :=
-  ⟨rfl, M.wf, M.monic, by rw [M.deg]; exact M.npos⟩
+  ⟨rfl, M.wf, M.monic, le_of_le_of_eq M.npos M.deg.symm⟩
 
 theorem Modulus.degree_eq (M : Modulus h32 n g) : (toPoly (PL h32) g).degree = (n : WithBot ℕ) := by
   rw [degree_eq_natDegree M.monic.ne_zero, M.deg]
@@ -139,12 +139,27 @@ theorem neg_spec (M : Modulus h32 n g) {a : UPoly Nat} (ha : Valid h32 n a) :
   · rw [e, degree_neg]; exact ha.degree_lt M
   · unfold emb; rw [e, map_neg]
 
+/-- `UPoly.times_spec` with the coefficient record written as `primeOps p` -/
+theorem times_spec' (M : Modulus h32 n g) {b c : UPoly Nat} (hb : AllValid (PL h32) b)
+    (hc : AllValid (PL h32) c) :
+    ∃ r, UPoly.times (Ext.ring p g) b c = some r ∧ WF (PL h32) r ∧
+      toPoly (PL h32) r = (toPoly (PL h32) b * toPoly (PL h32) c) %ₘ toPoly (PL h32) g ∧
+      (toPoly (PL h32) r).degree < (toPoly (PL h32) g).degree :=
+  UPoly.times_spec M.isQuot hb hc
+
+/-- `UPoly.ofCoefs_spec` with the coefficient record written as `primeOps p` -/
+theorem ofCoefs_spec' (M : Modulus h32 n g) {cs : List Nat} (hcs : AllValid (PL h32) cs) :
+    ∃ r, UPoly.ofCoefs (Ext.ring p g) cs = some r ∧ WF (PL h32) r ∧
+      toPoly (PL h32) r = toPoly (PL h32) cs %ₘ toPoly (PL h32) g ∧
+      (toPoly (PL h32) r).degree < (toPoly (PL h32) g).degree :=
+  UPoly.ofCoefs_spec M.isQuot hcs
+
 /-- the ring product of the quotient ring, unwrapped -/
 theorem times_unwrap (M : Modulus h32 n g) {b c : UPoly Nat} (hb : AllValid (PL h32) b)
     (hc : AllValid (PL h32) c) :
     Valid h32 n (Ext.unwrap (UPoly.times (Ext.ring p g) b c)) ∧
       emb h32 g (Ext.unwrap (UPoly.times (Ext.ring p g) b c)) = emb h32 g b * emb h32 g c := by
-  obtain ⟨r, h1, h2, h3, h4⟩ := UPoly.times_spec M.isQuot hb hc
+  obtain ⟨r, h1, h2, h3, h4⟩ := times_spec' M hb hc
   rw [h1]
   refine ⟨valid_of_degree_lt M h2 h4, ?_⟩
   show emb h32 g r = _
@@ -210,6 +225,153 @@ theorem isOne_iff_emb (M : Modulus h32 n g) {a : UPoly Nat} (ha : Valid h32 n a)
     have := emb_injective M ha (valid_one M) h
     rw [this]
     exact toPoly_one (PL h32)
+
+/-! ### 3. `ofNat`, `ofInt` -/
+
+theorem emb_singleton (c : Nat) :
+    emb h32 g [c] = ((c : ZMod p) : AdjoinRoot (toPoly (PL h32) g)) := by
+  unfold emb
+  rw [toPoly_singleton, primeLawfulFact_embed, AdjoinRoot.mk_C]
+
+/-- a constant polynomial brought into the ring -/
+theorem ofCoefs_singleton (M : Modulus h32 n g) {c : Nat} (hc : c < p) :
+    Valid h32 n (Ext.unwrap (UPoly.ofCoefs (Ext.ring p g) [c])) ∧
+      emb h32 g (Ext.unwrap (UPoly.ofCoefs (Ext.ring p g) [c])) =
+        ((c : ZMod p) : AdjoinRoot (toPoly (PL h32) g)) := by
+  have hcs : AllValid (PL h32) [c] := by
+    intro x hx; rw [List.mem_singleton] at hx; subst hx; exact hc
+  obtain ⟨r, h1, h2, h3, h4⟩ := ofCoefs_spec' M hcs
+  rw [h1]
+  refine ⟨valid_of_degree_lt M h2 h4, ?_⟩
+  show emb h32 g r = _
+  rw [← emb_singleton (h32 := h32) (g := g) c]
+  unfold emb
+  rw [h3, mk_modByMonic]
+
+theorem ofNat_spec (M : Modulus h32 n g) (v : Nat) :
+    Valid h32 n ((extOps p n g).ofNat v) ∧
+      emb h32 g ((extOps p n g).ofNat v) = (v : AdjoinRoot (toPoly (PL h32) g)) := by
+  have hp : 0 < p := (Fact.out : p.Prime).pos
+  obtain ⟨h1, h2⟩ := ofCoefs_singleton M (Prime.element_lt (v := v) hp)
+  refine ⟨h1, ?_⟩
+  show emb h32 g (Ext.unwrap (UPoly.ofCoefs (Ext.ring p g) [Prime.element p v])) = _
+  rw [h2, Prime.cast_element, map_natCast]
+
+theorem ofInt_spec (M : Modulus h32 n g) (v : Int) :
+    Valid h32 n ((extOps p n g).ofInt v) ∧
+      emb h32 g ((extOps p n g).ofInt v) = (v : AdjoinRoot (toPoly (PL h32) g)) := by
+  have hp : 0 < p := (Fact.out : p.Prime).pos
+  obtain ⟨h1, h2⟩ := ofCoefs_singleton M (Prime.fromSigned_lt hp h32 v)
+  refine ⟨h1, ?_⟩
+  show emb h32 g (Ext.unwrap (UPoly.ofCoefs (Ext.ring p g) [Prime.fromSigned p v])) = _
+  rw [h2, Prime.cast_fromSigned hp h32, map_intCast]
+
+/-! ### 4. the field `F_p[X]/(g)` and `pow` -/
+
+theorem natCard_adjoinRoot (M : Modulus h32 n g) :
+    Nat.card (AdjoinRoot (toPoly (PL h32) g)) = p ^ n := by
+  have := (AdjoinRoot.powerBasis' M.monic).finite
+  rw [Module.natCard_eq_pow_finrank (K := ZMod p), (AdjoinRoot.powerBasis' M.monic).finrank,
+    AdjoinRoot.powerBasis'_dim, Nat.card_zmod, M.deg]
+
+theorem finite_adjoinRoot (M : Modulus h32 n g) : Finite (AdjoinRoot (toPoly (PL h32) g)) := by
+  apply Nat.finite_of_card_ne_zero
+  rw [natCard_adjoinRoot M]
+  exact (pow_pos (Fact.out : p.Prime).pos n).ne'
+
+section Field
+variable [Fact (Irreducible (toPoly (PL h32) g))]
+
+theorem pow_card_sub_one (M : Modulus h32 n g) (x : AdjoinRoot (toPoly (PL h32) g))
+    (hx : x ≠ 0) : x ^ (p ^ n - 1) = 1 := by
+  have := finite_adjoinRoot M
+  have := Fintype.ofFinite (AdjoinRoot (toPoly (PL h32) g))
+  have := FiniteField.pow_card_sub_one_eq_one x hx
+  rwa [← Nat.card_eq_fintype_card, natCard_adjoinRoot M] at this
+
+theorem pow_card (M : Modulus h32 n g) (x : AdjoinRoot (toPoly (PL h32) g)) :
+    x ^ (p ^ n) = x := by
+  have := finite_adjoinRoot M
+  have := Fintype.ofFinite (AdjoinRoot (toPoly (PL h32) g))
+  have := FiniteField.pow_card x
+  rwa [← Nat.card_eq_fintype_card, natCard_adjoinRoot M] at this
+
+instance charP_adjoinRoot : CharP (AdjoinRoot (toPoly (PL h32) g)) p :=
+  charP_of_injective_algebraMap (algebraMap (ZMod p) (AdjoinRoot (toPoly (PL h32) g))).injective p
+
+/-- `Pow`, including the zero cases and the exponent shortcut `k ≥ p^n ↦ k mod (p^n - 1)`;
+    `Ext.card` does not wrap because `p^n < 2^64`. -/
+theorem pow_spec (M : Modulus h32 n g) (hq : p ^ n < 2 ^ 64) {a : UPoly Nat}
+    (ha : Valid h32 n a) (k : Nat) :
+    Valid h32 n (Ext.pow p n g a k) ∧ emb h32 g (Ext.pow p n g a k) = emb h32 g a ^ k := by
+  unfold Ext.pow
+  apply BinField.genericPow_spec (Ext.card p n) [0] [1 % p] (UPoly.isZero (primeOps p))
+    (Ext.mul p g) (emb h32 g) (Valid h32 n) (valid_zero M) emb_zero (valid_one M) emb_one
+  · intro x hx; exact isZero_iff_emb M hx
+  · intro x y hx hy; exact mul_spec M hx hy
+  · intro x _ hx0
+    rw [Ext.card_eq p n hq]
+    exact pow_card_sub_one M _ hx0
+  · exact ha
+
+/-! ### 6. `trace` -/
+
+theorem traceLoop_spec (M : Modulus h32 n g) (hq : p ^ n < 2 ^ 64) {a : UPoly Nat}
+    (ha : Valid h32 n a) (k : Nat) :
+    ∀ out, Valid h32 n out →
+      Valid h32 n (Ext.traceLoop p n g a out k) ∧
+        emb h32 g (Ext.traceLoop p n g a out k)
+          = emb h32 g out ^ p ^ k + ∑ i ∈ Finset.range k, emb h32 g a ^ p ^ i := by
+  induction k with
+  | zero => intro out hout; simp [Ext.traceLoop, hout]
+  | succ k ih =>
+    intro out hout
+    obtain ⟨hp1, hp2⟩ := pow_spec M hq hout p
+    obtain ⟨ha1, ha2⟩ := add_spec M hp1 ha
+    obtain ⟨h1, h2⟩ := ih _ ha1
+    rw [Ext.traceLoop]
+    refine ⟨h1, ?_⟩
+    rw [h2, ha2, hp2, add_pow_char_pow, ← pow_mul, ← pow_succ', Finset.sum_range_succ]
+    ring
+
+/-- `Trace` computes `∑_{i<n} a^(p^i)` -/
+theorem trace_spec (M : Modulus h32 n g) (hq : p ^ n < 2 ^ 64) {a : UPoly Nat}
+    (ha : Valid h32 n a) :
+    Valid h32 n (Ext.trace p n g a) ∧
+      emb h32 g (Ext.trace p n g a) = ∑ i ∈ Finset.range n, emb h32 g a ^ p ^ i := by
+  obtain ⟨h1, h2⟩ := traceLoop_spec M hq ha (n - 1) a ha
+  refine ⟨h1, ?_⟩
+  rw [Ext.trace, h2]
+  have hn := M.npos
+  conv_rhs => rw [show n = (n - 1) + 1 by omega, Finset.sum_range_succ]
+  ring
+
+/-- the trace is fixed by the Frobenius `x ↦ x^p`, i.e. it lies in the prime field -/
+theorem trace_pow_char (M : Modulus h32 n g) (hq : p ^ n < 2 ^ 64) {a : UPoly Nat}
+    (ha : Valid h32 n a) :
+    emb h32 g (Ext.trace p n g a) ^ p = emb h32 g (Ext.trace p n g a) := by
+  rw [(trace_spec M hq ha).2, sum_pow_char]
+  have e : ∀ i, (emb h32 g a ^ p ^ i) ^ p = emb h32 g a ^ p ^ (i + 1) := by
+    intro i; rw [← pow_mul, ← pow_succ]
+  simp only [e]
+  have h1 := Finset.sum_range_succ' (fun i => emb h32 g a ^ p ^ i) n
+  have h2 := Finset.sum_range_succ (fun i => emb h32 g a ^ p ^ i) n
+  simp only [pow_zero, pow_one] at h1
+  rw [pow_card M] at h2
+  rw [h2] at h1
+  exact (add_right_cancel h1).symm
+
+/-- the field trace to the prime field: `Tr_{GF(p^n)/GF(p)}` -/
+theorem trace_eq_algebra_trace (M : Modulus h32 n g) (hq : p ^ n < 2 ^ 64) {a : UPoly Nat}
+    (ha : Valid h32 n a) :
+    emb h32 g (Ext.trace p n g a)
+      = algebraMap (ZMod p) (AdjoinRoot (toPoly (PL h32) g))
+          (Algebra.trace (ZMod p) (AdjoinRoot (toPoly (PL h32) g)) (emb h32 g a)) := by
+  have := finite_adjoinRoot M
+  rw [(trace_spec M hq ha).2, FiniteField.algebraMap_trace_eq_sum_pow,
+    (AdjoinRoot.powerBasis' M.monic).finrank, AdjoinRoot.powerBasis'_dim, Nat.card_zmod, M.deg]
+
+end Field
 
 end Setting
 
